@@ -585,7 +585,7 @@ theorem step_sound (s : XSt) (m : MSt) (h : Sound s m) (op : Op) :
       have hres : s.w.reserved = false := hrr
       rw [stepOp_spin s hbad hres]
       -- reader half
-      obtain ⟨new, m1, a1, e1, hj1, hr1, hb1, hq1, hsw1, hmw1⟩ :=
+      obtain ⟨new, m1, a1, e1, _, hj1, hr1, hb1, hq1, hsw1, hmw1⟩ :=
         spinR_sound (s.loopN + rqWeight s.rq + 2) s m a [] hr hbad (by unfold need; split <;> omega)
       generalize spinR (s.loopN + rqWeight s.rq + 2) s [] = X at e1 hr1 hb1 hq1 hsw1 ⊢
       obtain ⟨s1, recs⟩ := X
@@ -650,6 +650,49 @@ theorem run_sound (ops : List Op) : ∀ (s : XSt) (m : MSt), Sound s m →
     refine ⟨?_, i2⟩
     simp only [runOps, List.map_cons, List.zip_cons_cons, acceptsRun, e]
     exact i1
+
+/-- every callback record of a `spin` line could be printed (no `0:<a>:model-oob`) -/
+def OutReadable : Out → Prop
+  | .spin recs _ _ _ _ _ _ => ∀ r ∈ recs, Readable r
+  | _ => True
+
+theorem rOp_readable (s : XSt) (res : Res NetbufRead.R) : OutReadable (rOp s res).2 := by
+  unfold rOp; split <;> trivial
+
+theorem wOp_readable (s : XSt) (res : Res NetbufWrite.W) : OutReadable (wOp s res).2 := by
+  unfold wOp; split <;> trivial
+
+theorem step_readable (s : XSt) (m : MSt) (h : Sound s m) (op : Op) : OutReadable (stepOp s op).2 := by
+  cases op with
+  | spin =>
+    by_cases hres : s.w.reserved = true
+    · have hst : stepOp s .spin = (s, .contract) := by simp [stepOp, h.bad, hres]
+      rw [hst]; trivial
+    · rw [stepOp_spin s h.bad (by simpa using hres)]
+      obtain ⟨a, hr⟩ := h.r
+      obtain ⟨new, m1, a1, e1, hrd, _⟩ :=
+        spinR_sound (s.loopN + rqWeight s.rq + 2) s m a [] hr h.bad (by unfold need; split <;> omega)
+      split
+      · trivial
+      · show ∀ r ∈ _, Readable r
+        rw [e1]; simpa using hrd
+  | _ =>
+    unfold stepOp
+    rw [h.bad]
+    simp only []
+    (repeat' split) <;> first | trivial | exact rOp_readable _ _ | exact wOp_readable _ _
+
+theorem run_readable (ops : List Op) : ∀ (s : XSt) (m : MSt), Sound s m →
+    ∀ o ∈ (runOps s ops).2, OutReadable o := by
+  induction ops with
+  | nil => intro s m _ o ho; simp [runOps] at ho
+  | cons op ops ih =>
+    intro s m h o ho
+    obtain ⟨m', _, h'⟩ := step_sound s m h op
+    simp only [runOps, List.mem_cons] at ho
+    rcases ho with rfl | ho
+    · exact step_readable s m h op
+    · exact ih _ m' h' o ho
 
 /-- a line `failed …` is printed only together with setting the failure latch -/
 def FailLatched (p : XSt × Out) : Prop := ∀ f, p.2 = .failed f → p.1.bad = some f
